@@ -2,7 +2,7 @@
 function objects, refstring builder/resolver agreement."""
 import ast
 
-from ..astq import is_name, kwarg, parse_fixture, returns_of, stmt_of
+from ..astq import facts_of, is_name, kwarg, parse_fixture, returns_of, stmt_of
 from ..cfg import CFG
 from ..core import AnalysisError, norm, walk_local, dotted
 
@@ -177,8 +177,8 @@ def run(repo, chk):
                 bad.append(f"{q}: {norm(n)}")
     chk.ob("R14.2", "package:user-function-not-discarded", not bad, "ptera/", f"the function the user holds is never marked as a helper {bad}")
     dr = repo.func("selector.dict_resolver.resolve")
-    t = norm(dr.node)
-    chk.ob("R14.2", "selector.dict_resolver.resolve:filters-discarded", "not getattr(fn, '__ptera_discard__', False)" in t and "inspect.isfunction(fn)" in t, dr.where,
+    fdr = facts_of(dr)
+    chk.ob("R14.2", "selector.dict_resolver.resolve:filters-discarded", fdr.mentions("if inspect.isfunction(fn) and (not getattr(fn, '__ptera_discard__', False))]"), dr.where,
            "the resolver ignores exactly the function objects marked __ptera_discard__")
 
     # R14.3
@@ -186,21 +186,21 @@ def run(repo, chk):
     r = returns_of(br.node)
     ok = len(r) == 1 and norm(r[0].value) == "f'/{module}/' + '/'.join(path)"
     chk.ob("R14.3", "utils._build_refstring:shape", ok, br.where, "reference = '/' module '/' path joined by '/'")
-    ok = any(isinstance(n, ast.If) and norm(n.test) == "module == '__main__'" and norm(n.body[0]) == "module = ''" for n in walk_local(br.node))
+    ok = facts_of(br).has("module = ''", exactly=["module == '__main__'"])
     chk.ob("R14.3", "utils._build_refstring:main-is-empty", ok, br.where, "__main__ is written as the empty module")
-    chk.ob("R14.3", "selector.dict_resolver.resolve:split", "_, module, *hierarchy = x.split('/')" in t, dr.where, "the resolver splits on '/' into (empty, module, *path)")
-    chk.ob("R14.3", "selector.dict_resolver.resolve:main-convention", "codefind.find_code(*hierarchy, module=module or '__main__')" in t, dr.where,
+    chk.ob("R14.3", "selector.dict_resolver.resolve:split", fdr.has("_, module, *hierarchy = x.split('/')", exactly=["x.startswith('/')"]), dr.where, "the resolver splits on '/' into (empty, module, *path)")
+    chk.ob("R14.3", "selector.dict_resolver.resolve:main-convention", fdr.mentions("codefind.find_code(*hierarchy, module=module or '__main__')"), dr.where,
            "an empty module means __main__; the path is looked up with find_code(*path, module=...)")
     ve = repo.func("utils._verify_existence")
-    chk.ob("R14.3", "utils._verify_existence:same-lookup", "codefind.find_code(*path, module=module)" in norm(ve.node), ve.where,
+    chk.ob("R14.3", "utils._verify_existence:same-lookup", facts_of(ve).mentions("codefind.find_code(*path, module=module)"), ve.where,
            "refstring() validates the reference with the same lookup the resolver uses")
     ei = repo.func("utils._extract_info")
-    te = norm(ei.node)
-    chk.ob("R14.3", "utils._extract_info:qualname-path", "qualname.split('.')" in te and "p != '<locals>'" in te and "return (module, *path)" in te, ei.where,
+    fei = facts_of(ei)
+    chk.ob("R14.3", "utils._extract_info:qualname-path", (fei.mentions("qualname.split('.')") or fei.mentions("getattr(fn, '__qualname__', None).split('.')")) and fei.mentions("if p != '<locals>']") and fei.mentions("return (getattr(fn, '__module__', None), *path)"), ei.where,
            "the path is __qualname__ split on '.', without the <locals> markers")
     rs = repo.func("utils.refstring")
-    chk.ob("R14.3", "utils.refstring:uses-builder-and-verifier", "_build_refstring(module, *path)" in norm(rs.node) and "_verify_existence(module, *path)" in norm(rs.node),
+    chk.ob("R14.3", "utils.refstring:uses-builder-and-verifier", facts_of(rs).mentions("_build_refstring(module, *path)") and facts_of(rs).mentions("_verify_existence(module, *path)") and facts_of(rs).has("module, *path = _extract_info(fn)"),
            rs.where, "refstring() = builder + existence check on the same (module, path)")
     tr = repo.func("transform.transform")
-    chk.ob("R14.3", "transform.transform:assimilates-original-code", "code_registry.assimilate(co, (co.co_filename,))" in norm(tr.node), tr.where,
+    chk.ob("R14.3", "transform.transform:assimilates-original-code", facts_of(tr).mentions("code_registry.assimilate(fn.__code__, (fn.__code__.co_filename,))"), tr.where,
            "transform registers the original code object's path so that it is known to the registry before any swap")
